@@ -897,6 +897,17 @@ impl<'a> VisitMut for ChainPass<'a> {
                 *e = Expr::Call(call);
                 return;
             }
+            if sp.recv_mode == "fnval" {
+                // `RECV.map(path::to::function)`: the argument is a function used as a value (Verus does not take
+                // those); the wrapper stands for the call with exactly that function, so only the receiver is passed.
+                // Only when every argument is a plain path.
+                if !args.iter().all(|a| matches!(a, Expr::Path(_))) { continue; }
+                call.args.push(recv);
+                sp.used += 1;
+                self.rules.hit("R7.method_chain_with_function_value_to_wrapper");
+                *e = Expr::Call(call);
+                return;
+            }
             match sp.recv_mode.as_str() {
                 "mut" => call.args.push(parse_quote!(&mut #recv)),
                 "ref" => call.args.push(parse_quote!(& #recv)),
